@@ -1,6 +1,8 @@
 package props
 
 import (
+	"bytes"
+	"testing/iotest"
 	"encoding/json"
 	"fmt"
 	"strings"
@@ -22,6 +24,7 @@ type C10Triple struct {
 	Src   ast.BS   `json:"src"`
 	Sels  []string `json:"sels,omitempty"`
 	Files []DFile  `json:"files,omitempty"`
+	Fuzz  bool     `json:"fuzz,omitempty"` // run in the library's fuzzing mode (as the project's fuzz targets do)
 }
 
 type C10Session struct {
@@ -30,12 +33,26 @@ type C10Session struct {
 	CLI      bool        `json:"cli,omitempty"`
 }
 
-func (tr *C10Triple) run() string {
+// run executes the triple; nth counts its executions in the session. The same input bytes
+// are handed over differently from one execution to the next (whole, together with the end
+// of input, one byte per read, half of what was asked for): the results are a function of
+// the bytes, not of how a reader delivers them.
+func (tr *C10Triple) run(nth int) string {
 	var files []run.InFile
 	for _, f := range tr.Files {
-		files = append(files, run.InFile{Name: f.Name, Data: []byte(strings.Join(f.Docs, "\n"))})
+		data := []byte(strings.Join(f.Docs, "\n"))
+		in := run.InFile{Name: f.Name, Data: data}
+		switch nth % 4 {
+		case 1:
+			in.Reader = iotest.DataErrReader(bytes.NewReader(data))
+		case 2:
+			in.Reader = iotest.OneByteReader(bytes.NewReader(data))
+		case 3:
+			in.Reader = iotest.HalfReader(bytes.NewReader(data))
+		}
+		files = append(files, in)
 	}
-	o := run.InProc(string(tr.Src), files, tr.Sels, run.Opts{Budget: implBudget, WantRoot: true})
+	o := run.InProc(string(tr.Src), files, tr.Sels, run.Opts{Budget: implBudget, WantRoot: true, Fuzzing: tr.Fuzz})
 	return fmt.Sprintf("class=%s msg=%q line=%d col=%d file=%q\nroot=%q rooterr=%q rootpanic=%q panic=%q\nstdout=%q", o.Class, o.Msg, o.Line, o.Col, o.FileName, o.RootJSON, o.RootErr, o.RootPanic, o.Panic, o.Stdout)
 }
 
@@ -43,7 +60,7 @@ func c10Check(s *C10Session) string {
 	first := map[int]string{}
 	count := map[int]int{}
 	for step, k := range s.Schedule {
-		sig := s.Triples[k].run()
+		sig := s.Triples[k].run(count[k])
 		count[k]++
 		if prev, ok := first[k]; !ok {
 			first[k] = sig
@@ -54,7 +71,7 @@ func c10Check(s *C10Session) string {
 	if s.CLI && run.CLIBinary() != "" {
 		for k := range s.Triples {
 			tr := &s.Triples[k]
-			if len(tr.Files) > 1 {
+			if len(tr.Files) > 1 || tr.Fuzz {
 				continue
 			}
 			var sigs []string
@@ -85,9 +102,15 @@ func c10Check(s *C10Session) string {
 			}
 			// a fresh process and this (much used) process agree on stdout, the JSON output
 			// and the success/error outcome
-			if len(sigs) > 0 && len(tr.Files) == 1 {
-				f := tr.Files[0]
-				o := run.InProc(string(tr.Src), []run.InFile{{Name: f.Name + ".json", Data: []byte(strings.Join(f.Docs, "\n"))}}, tr.Sels, run.Opts{Budget: implBudget, WantRoot: true})
+			if len(sigs) > 0 && len(tr.Files) <= 1 {
+				var ins []run.InFile
+				for _, f := range tr.Files {
+					ins = append(ins, run.InFile{Name: f.Name + ".json", Data: []byte(strings.Join(f.Docs, "\n"))})
+				}
+				if len(ins) == 0 {
+					ins = []run.InFile{{Name: "<stdin>", Data: nil}} // the binary reads its (empty) standard input
+				}
+				o := run.InProc(string(tr.Src), ins, tr.Sels, run.Opts{Budget: implBudget, WantRoot: true})
 				want, wantExit := string(o.Stdout), 1
 				switch {
 				case o.Class == "ok" && o.RootErr == "" && o.RootPanic == "":
@@ -304,6 +327,21 @@ func c10StatefulSelector(t *rapid.T) C10Triple {
 	return C10Triple{Src: ast.BS(src), Sels: sels[rapid.IntRange(0, len(sels)-1).Draw(t, "sssel")], Files: []DFile{{Name: "in", Docs: []string{docs}}}}
 }
 
+// c10Deep: recursion to a depth of tens to thousands of frames (through a function, or a
+// function and a match body in turn): whether it succeeds does not depend on what ran before.
+func c10Deep(t *rapid.T) C10Triple {
+	sizes := []int{40, 70, 130, 200, 300, 513, 520, 600, 700, 1000}
+	if evThorough() {
+		sizes = append(sizes, 1500, 2000, 2047, 3000, 4000, 4090)
+	}
+	n := rapid.SampledFrom(sizes).Draw(t, "deepn")
+	src := fmt.Sprintf("function f(n) { if (n <= 0) { return 0 }\nreturn 1 + f(n - 1) }\nBEGIN { print f(%d) }", n)
+	if rapid.Bool().Draw(t, "deepmatch") {
+		src = fmt.Sprintf("function f(n) { if (n <= 0) { return 0 }\nreturn match (n) { k => { return 1 + f(k - 1) } } }\nBEGIN { print f(%d) }", n/2)
+	}
+	return C10Triple{Src: ast.BS(src)}
+}
+
 func c10FromCase(c *DCase) C10Triple {
 	return C10Triple{Src: ast.BS(c.Source()), Sels: c.SelSources(), Files: c.Files}
 }
@@ -314,7 +352,10 @@ func genC10(t *rapid.T) (*C10Session, []string) {
 	var labels []string
 	intruders := map[int]bool{}
 	for k := 0; k < n; k++ {
-		switch rapid.IntRange(0, 14).Draw(t, "family") {
+		switch rapid.IntRange(0, 15).Draw(t, "family") {
+		case 15:
+			s.Triples = append(s.Triples, c10Deep(t))
+			labels = append(labels, "deep-recursion")
 		case 14:
 			s.Triples = append(s.Triples, c10StatefulSelector(t))
 			labels = append(labels, "selector-with-side-effects", "intruder")
@@ -364,6 +405,14 @@ func genC10(t *rapid.T) (*C10Session, []string) {
 			s.Triples = append(s.Triples, c10FromCase(f.Case))
 			labels = append(labels, "faulted")
 		}
+	}
+	// now and then one of the programs runs in the library's fuzzing mode (every execution of
+	// it): the other programs' results do not depend on that
+	if rapid.IntRange(0, 3).Draw(t, "fuzzmode") == 0 {
+		k := rapid.IntRange(0, len(s.Triples)-1).Draw(t, "fuzztriple")
+		s.Triples[k].Fuzz = true
+		intruders[k] = true
+		labels = append(labels, "a-run-in-fuzzing-mode")
 	}
 	// every triple is executed 8 times, interleaved with the others. In the first
 	// round the programs that try to leave something behind run last, so that every
@@ -418,6 +467,9 @@ func TestC10(t *testing.T) {
 		s.CLI = rapid.IntRange(0, 39).Draw(rt, "cli") == 0
 		for _, l := range labels {
 			if l == "first-use-in-process" {
+				s.CLI = true
+			}
+			if l == "deep-recursion" && rapid.IntRange(0, 2).Draw(rt, "deepcli") == 0 {
 				s.CLI = true
 			}
 		}
